@@ -120,6 +120,7 @@ func parseUse(line string) useTruth {
 	t.specs = strings.Split(f[3], ",")
 	var acc []byte   // bytes of the current response
 	var cur []scanPkg // its packages so far
+	var pendingHO []scanPkg
 	fired := 0
 	delivered := 0
 	ranRound := false
@@ -132,8 +133,14 @@ func parseUse(line string) useTruth {
 			ne++
 		case tok == "+n":
 			nv++
-		case strings.HasPrefix(tok, "h:"):
-			return t // header-only packets are not used in these scenarios
+		case strings.HasPrefix(tok, "h:") || strings.HasPrefix(tok, "H:"):
+			// a header-only packet (H: with the EOM status) is delivered as a package of its own; judged
+			// only between responses, where it counts to the response that follows
+			if len(acc) != 0 {
+				return t
+			}
+			pendingHO = append(pendingHO, scanPkg{kind: "other", shown: "headeronly " + tok[2:]})
+			delivered++
 		default:
 			p := strings.SplitN(tok, ":", 2)
 			if len(p) != 2 {
@@ -172,6 +179,8 @@ func parseUse(line string) useTruth {
 				if used != len(acc) {
 					return t // a truncated response: not generated
 				}
+				cur = append(append([]scanPkg{}, pendingHO...), cur...)
+				pendingHO = nil
 				t.resp = append(t.resp, cur)
 				t.respAt = append(t.respAt, i)
 				if len(expectStream(cur)) > len(passThrough(cur)) {
@@ -601,6 +610,9 @@ func c03Gen(tier string, rng *rand.Rand, emit func(Case)) {
 		mode := rng.Intn(3) // 0 aligned, 1 batched, 2 mixed
 		pending := 0
 		for j := 0; j < k; j++ {
+			if rng.Intn(4) == 0 { // e.g. the acknowledgement of a logical channel: header-only, EOM status set
+				toks = append(toks, []string{"H:11", "h:11"}[rng.Intn(2)])
+			}
 			toks = append(toks, respTokens(rng, c03Response(rng))...)
 			pending++
 			if mode == 0 || (mode == 2 && rng.Intn(2) == 0) {
@@ -697,6 +709,13 @@ func c11Response(rng *rand.Rand) []respPkg {
 	}
 	if rng.Intn(3) > 0 {
 		r = append(r, rDone(0, rng.Intn(100)))
+		// packages the consumer never sees may still follow the final DONE
+		switch rng.Intn(6) {
+		case 0:
+			r = append(r, rEnv([3]string{"\x01", "db" + strconv.Itoa(rng.Intn(9)), "master"}))
+		case 1:
+			r = append(r, rEED(5701+rng.Intn(2), true, "Changed database context.\n"))
+		}
 	} else {
 		r = append(r, rDone(2, rng.Intn(100)))
 	}
